@@ -117,6 +117,7 @@ func parseExprWithPrecedence(lex *lexer.PeekingLexer, minPrec int) (Expression, 
 	if err != nil {
 		return nil, err
 	}
+loop:
 	for {
 		tok := lex.Peek()
 		if tok.EOF() {
@@ -155,7 +156,8 @@ func parseExprWithPrecedence(lex *lexer.PeekingLexer, minPrec int) (Expression, 
 			}
 		case tok.Type == TokenTypeOpenBracket:
 			if minPrec >= 5 {
-				break
+				// the subscript applies to the enclosing expression
+				break loop
 			}
 			lhs, err = parseSubscript(lex, lhs)
 			if err != nil {
